@@ -51,6 +51,7 @@ class FnContract:
     alias_ok: tuple = ()
     comp_membership: bool = False  # list comprehensions also get `y in result => y == body(i) for some passing i` (extra quantified fact)
     merge_branches: bool = True  # False: keep the paths of every `if` apart (more obligations, simpler terms)
+    seq_positions: bool = False  # `x in <list>` / set(<list>) also yield a POSITION witness (L[p] == x) and "every position is a member" (extra quantified facts)
 
     @property
     def key(self):
@@ -84,6 +85,7 @@ class ClassSpec:
     views: dict = field(default_factory=dict)  # abstract field -> python callable(obj) for run-time evaluation
     getitem: object = None
     setitem: object = None
+    delitem: object = None  # delitem(ex, st, self, idx, node): `del obj[idx]` (writes the heap; KeyError obligation is the hook's job)
     contains: object = None
     iter: object = None
     length: object = None
